@@ -1,4 +1,1227 @@
-//! C11 monitor (not written yet).
-use crate::ctx::Ctx;
+//! C11 — printing a value as Candid text and parsing it back returns the same value.
+//!
+//! Values are generated from model types (so their types are known without asking candid), turned
+//! into the `IDLValue` the decoder would produce, printed with `Display` and `{:?}`, parsed with
+//! `parse_idl_args` / `parse_idl_value` and annotated with their types. The result must be equal as
+//! `IDLValue` and in abstract meaning (`conv::model_value`, floats bit for bit).
+//! A failing value is shrunk to the smallest failing sub-value before it is classified, so a
+//! signature describes the construct that breaks, not whatever surrounded it.
+use super::common::{diff, err_class};
+use super::textgen::*;
+use crate::conv::*;
+use crate::ctx::{catch, Ctx};
+use crate::gen::types::*;
+use crate::gen::values::*;
+use crate::model::*;
+use crate::rng::{hash_str, Rng};
+use candid::types::value::{IDLArgs, IDLValue};
+use candid::types::{Label, Type, TypeEnv};
+use candid_parser::{parse_idl_args, parse_idl_value};
+use serde_json::json;
+use std::collections::BTreeMap;
 
-pub fn run(_ctx: &mut Ctx) {}
+type Cover = BTreeMap<String, u64>;
+
+fn bump(cov: &mut Cover, k: &str) {
+    if let Some(v) = cov.get_mut(k) {
+        *v += 1;
+    } else {
+        cov.insert(k.to_string(), 1);
+    }
+}
+
+#[derive(Clone, Copy, PartialEq, Eq, Debug)]
+enum Printer {
+    Display,
+    Debug,
+}
+impl Printer {
+    fn name(self) -> &'static str {
+        match self {
+            Printer::Display => "display",
+            Printer::Debug => "debug",
+        }
+    }
+}
+
+struct Failure {
+    stage: &'static str,
+    detail: String,
+    text: String,
+}
+
+fn print_value(v: &IDLValue, p: Printer) -> String {
+    match p {
+        Printer::Display => format!("{v}"),
+        Printer::Debug => format!("{v:?}"),
+    }
+}
+fn print_args(v: &IDLArgs, p: Printer) -> String {
+    match p {
+        Printer::Display => format!("{v}"),
+        Printer::Debug => format!("{v:?}"),
+    }
+}
+
+fn diff_class(d: &str) -> String {
+    let tail = d.split(": ").nth(1).unwrap_or(d);
+    let w: Vec<&str> = tail.split_whitespace().take(2).collect();
+    w.join(" ").chars().filter(|c| !c.is_ascii_digit()).take(40).collect()
+}
+
+/// `VERIF_TRACE=1` prints every text before it is parsed (to find the input of a crash).
+fn trace(text: &str) {
+    static ON: std::sync::OnceLock<bool> = std::sync::OnceLock::new();
+    if *ON.get_or_init(|| std::env::var("VERIF_TRACE").is_ok()) {
+        eprintln!("TRACE {text:?}");
+    }
+}
+
+fn short_loc(loc: &str) -> String {
+    loc.rsplit('/').next().unwrap_or(loc).to_string()
+}
+
+fn panic_detail(pi: &crate::ctx::PanicInfo) -> String {
+    format!("{}|{}", short_loc(&pi.location), pi.message.lines().next().unwrap_or(""))
+}
+
+/// Kinds the printers annotate at top level (`5 : nat8`): the `Arg` grammar behind
+/// `parse_idl_value` has no annotation at top level, so those are parsed inside parentheses.
+fn top_level_annotated(v: &IDLValue) -> bool {
+    use IDLValue::*;
+    matches!(
+        v,
+        Int(_)
+            | Nat(_)
+            | Nat8(_)
+            | Nat16(_)
+            | Nat32(_)
+            | Nat64(_)
+            | Int8(_)
+            | Int16(_)
+            | Int32(_)
+            | Int64(_)
+            | Float32(_)
+            | Float64(_)
+            | Null
+            | Reserved
+    )
+}
+
+/// Print, print again, parse, annotate, compare one value. With `wrapped` the printed text is
+/// parsed as `(text)` (an argument position).
+fn roundtrip_value(v: &IDLValue, env: &TypeEnv, t: &Type, p: Printer, wrapped: bool) -> Result<String, Failure> {
+    let text = match catch(|| print_value(v, p)) {
+        Ok(s) => s,
+        Err(pi) => {
+            return Err(Failure {
+                stage: "print-panic",
+                detail: panic_detail(&pi),
+                text: String::new(),
+            })
+        }
+    };
+    let again = catch(|| print_value(v, p)).unwrap_or_default();
+    if again != text {
+        return Err(Failure {
+            stage: "nondeterministic-print",
+            detail: String::new(),
+            text,
+        });
+    }
+    let src = if wrapped { format!("({text})") } else { text.clone() };
+    if lexer_ub_risk(&src) {
+        return Err(Failure {
+            stage: "unparsable-escape",
+            detail: "printed text has a backslash before a non-ASCII character: no such escape exists (and lexing it is undefined behaviour, see C13)".into(),
+            text,
+        });
+    }
+    trace(&src);
+    let parsed = match catch(|| parse_idl_value(&src)) {
+        Err(pi) => {
+            return Err(Failure {
+                stage: "parse-panic",
+                detail: panic_detail(&pi),
+                text,
+            })
+        }
+        Ok(Err(e)) => {
+            return Err(Failure {
+                stage: "parse-fail",
+                detail: err_class(&e),
+                text,
+            })
+        }
+        Ok(Ok(x)) => x,
+    };
+    let ann = match catch(|| parsed.annotate_type(true, env, t)) {
+        Err(pi) => {
+            return Err(Failure {
+                stage: "annotate-panic",
+                detail: panic_detail(&pi),
+                text,
+            })
+        }
+        Ok(Err(e)) => {
+            return Err(Failure {
+                stage: "annotate-fail",
+                detail: err_class(&e),
+                text,
+            })
+        }
+        Ok(Ok(x)) => x,
+    };
+    let (ma, mb) = (model_value(v), model_value(&ann));
+    if let Some(d) = diff(&ma, &mb, &mut String::from("v")) {
+        return Err(Failure {
+            stage: "value-mismatch",
+            detail: d,
+            text,
+        });
+    }
+    if ann != *v {
+        return Err(Failure {
+            stage: "idlvalue-not-equal",
+            detail: "same abstract value, different IDLValue".into(),
+            text,
+        });
+    }
+    Ok(text)
+}
+
+fn roundtrip_args(a: &IDLArgs, env: &TypeEnv, ts: &[Type], p: Printer) -> Result<String, Failure> {
+    let text = match catch(|| print_args(a, p)) {
+        Ok(s) => s,
+        Err(pi) => {
+            return Err(Failure {
+                stage: "print-panic",
+                detail: panic_detail(&pi),
+                text: String::new(),
+            })
+        }
+    };
+    let again = catch(|| print_args(a, p)).unwrap_or_default();
+    if again != text {
+        return Err(Failure {
+            stage: "nondeterministic-print",
+            detail: String::new(),
+            text,
+        });
+    }
+    if lexer_ub_risk(&text) {
+        return Err(Failure {
+            stage: "unparsable-escape",
+            detail: "printed text has a backslash before a non-ASCII character: no such escape exists (and lexing it is undefined behaviour, see C13)".into(),
+            text,
+        });
+    }
+    trace(&text);
+    let parsed = match catch(|| parse_idl_args(&text)) {
+        Err(pi) => {
+            return Err(Failure {
+                stage: "parse-panic",
+                detail: panic_detail(&pi),
+                text,
+            })
+        }
+        Ok(Err(e)) => {
+            return Err(Failure {
+                stage: "parse-fail",
+                detail: err_class(&e),
+                text,
+            })
+        }
+        Ok(Ok(x)) => x,
+    };
+    if parsed.args.len() != a.args.len() {
+        return Err(Failure {
+            stage: "value-mismatch",
+            detail: format!("args: argument count {} vs {}", a.args.len(), parsed.args.len()),
+            text,
+        });
+    }
+    let ann = match catch(|| parsed.annotate_types(true, env, ts)) {
+        Err(pi) => {
+            return Err(Failure {
+                stage: "annotate-panic",
+                detail: panic_detail(&pi),
+                text,
+            })
+        }
+        Ok(Err(e)) => {
+            return Err(Failure {
+                stage: "annotate-fail",
+                detail: err_class(&e),
+                text,
+            })
+        }
+        Ok(Ok(x)) => x,
+    };
+    for (i, (x, y)) in a.args.iter().zip(ann.args.iter()).enumerate() {
+        if let Some(d) = diff(&model_value(x), &model_value(y), &mut format!("arg{i}")) {
+            return Err(Failure {
+                stage: "value-mismatch",
+                detail: d,
+                text,
+            });
+        }
+    }
+    if ann != *a {
+        return Err(Failure {
+            stage: "idlvalue-not-equal",
+            detail: "same abstract value, different IDLValue".into(),
+            text,
+        });
+    }
+    Ok(text)
+}
+
+/// Which escape forms / raw classes the printer actually emitted.
+fn scan_printed(text: &str, cov: &mut Cover) -> bool {
+    let b: Vec<char> = text.chars().collect();
+    let mut i = 0;
+    let mut nul_escape = false;
+    while i < b.len() {
+        if b[i] != '"' {
+            i += 1;
+            continue;
+        }
+        // a string literal starts; blob literals use \xx for everything
+        let mut j = i;
+        while j > 0 && b[j - 1] == ' ' {
+            j -= 1;
+        }
+        let is_blob = j >= 4 && b[j - 4..j] == ['b', 'l', 'o', 'b'];
+        let kind = if is_blob { "blob" } else { "text" };
+        i += 1;
+        while i < b.len() && b[i] != '"' {
+            if b[i] == '\\' && i + 1 < b.len() {
+                let c = b[i + 1];
+                if is_blob {
+                    bump(cov, "cover:printed:blob:\\xx");
+                    i += 3;
+                    continue;
+                }
+                match c {
+                    'n' | 't' | 'r' | '\\' | '"' | '\'' => {
+                        bump(cov, &format!("cover:printed:text:\\{c}"));
+                        i += 2;
+                    }
+                    '0' => {
+                        nul_escape = true;
+                        let hex = b.get(i + 2).map(|x| x.is_ascii_hexdigit()).unwrap_or(false);
+                        bump(
+                            cov,
+                            if hex {
+                                "cover:printed:text:\\0+hexdigit"
+                            } else {
+                                "cover:printed:text:\\0"
+                            },
+                        );
+                        i += 2;
+                    }
+                    'u' => {
+                        let mut k = i + 3;
+                        let mut cp = 0u32;
+                        while k < b.len() && b[k] != '}' {
+                            cp = cp.wrapping_mul(16).wrapping_add(b[k].to_digit(16).unwrap_or(0));
+                            k += 1;
+                        }
+                        let class = char::from_u32(cp).map(scalar_class).unwrap_or("invalid");
+                        bump(cov, &format!("cover:printed:text:\\u{{..}}:{class}"));
+                        i = k + 1;
+                    }
+                    _ => {
+                        // only reachable when a printer emitted something that is not a string escape
+                        bump(cov, "cover:printed:text:\\other(unparsable print)");
+                        i += 2;
+                    }
+                }
+            } else {
+                if b[i].is_ascii() {
+                    bump(cov, if is_blob { "cover:printed:blob:raw-ascii" } else { "cover:printed:text:raw-ascii" });
+                } else {
+                    bump(cov, &format!("cover:printed:{kind}:raw:{}", scalar_class(b[i])));
+                }
+                i += 1;
+            }
+        }
+        i += 1;
+    }
+    nul_escape
+}
+
+fn scan_string(s: &str, pos: &str, cov: &mut Cover) {
+    let mut seen: [bool; 20] = [false; 20];
+    const CLASSES: [&str; 20] = [
+        "nul",
+        "tab-cr-lf",
+        "c0-control",
+        "double-quote",
+        "single-quote",
+        "backslash",
+        "ascii-printable",
+        "del",
+        "c1-control",
+        "latin1",
+        "combining",
+        "bidi-or-zero-width",
+        "line-separator",
+        "bom",
+        "surrogate-adjacent",
+        "noncharacter",
+        "private-use",
+        "bmp-other",
+        "astral",
+        "?",
+    ];
+    let cs: Vec<char> = s.chars().collect();
+    for (i, c) in cs.iter().enumerate() {
+        let k = scalar_class(*c);
+        let idx = CLASSES.iter().position(|x| *x == k).unwrap_or(19);
+        if !seen[idx] {
+            seen[idx] = true;
+            bump(cov, &format!("cover:value:{pos}:{k}"));
+        }
+        if *c == '\u{0}' {
+            let hex = cs.get(i + 1).map(|x| x.is_ascii_hexdigit()).unwrap_or(false);
+            bump(
+                cov,
+                &format!("cover:value:{pos}:{}", if hex { "nul+hexdigit" } else { "nul+other-or-end" }),
+            );
+        }
+    }
+    if s.is_empty() {
+        bump(cov, &format!("cover:value:{pos}:empty"));
+    }
+}
+
+fn scan_value(v: &IDLValue, depth: usize, cov: &mut Cover, maxdepth: &mut usize) {
+    if depth > *maxdepth {
+        *maxdepth = depth;
+    }
+    let lab = |l: &Label, cov: &mut Cover| match l {
+        Label::Named(n) => {
+            scan_string(n, "label", cov);
+            if LEXER_KEYWORDS.contains(&n.as_str()) || PRIM_NAMES.contains(&n.as_str()) {
+                bump(cov, "cover:label:keyword");
+            } else if is_plain_id(n) {
+                bump(cov, "cover:label:identifier");
+            } else {
+                bump(cov, "cover:label:needs-quotes");
+            }
+        }
+        _ => bump(cov, "cover:label:numeric"),
+    };
+    match v {
+        IDLValue::Text(s) => scan_string(s, "text", cov),
+        IDLValue::Func(_, m) => {
+            scan_string(m, "method", cov);
+            bump(cov, "cover:kind:func");
+        }
+        IDLValue::Opt(x) => {
+            bump(
+                cov,
+                match **x {
+                    IDLValue::Nat(_)
+                    | IDLValue::Int(_)
+                    | IDLValue::Nat8(_)
+                    | IDLValue::Nat16(_)
+                    | IDLValue::Nat32(_)
+                    | IDLValue::Nat64(_)
+                    | IDLValue::Int8(_)
+                    | IDLValue::Int16(_)
+                    | IDLValue::Int32(_)
+                    | IDLValue::Int64(_)
+                    | IDLValue::Float32(_)
+                    | IDLValue::Float64(_) => "cover:kind:opt-of-annotated-number",
+                    IDLValue::Null | IDLValue::Reserved | IDLValue::None => "cover:kind:opt-of-null-like",
+                    _ => "cover:kind:opt",
+                },
+            );
+            scan_value(x, depth + 1, cov, maxdepth)
+        }
+        IDLValue::Vec(xs) => {
+            bump(
+                cov,
+                match xs.len() {
+                    0 => "cover:vec-len:0",
+                    1..=8 => "cover:vec-len:1-8",
+                    9 => "cover:vec-len:9",
+                    10 => "cover:vec-len:10",
+                    11 => "cover:vec-len:11",
+                    _ => "cover:vec-len:12+",
+                },
+            );
+            for x in xs {
+                scan_value(x, depth + 1, cov, maxdepth);
+            }
+        }
+        IDLValue::Record(fs) => {
+            bump(cov, "cover:kind:record");
+            for f in fs {
+                lab(&f.id, cov);
+                scan_value(&f.val, depth + 1, cov, maxdepth);
+            }
+        }
+        IDLValue::Variant(x) => {
+            lab(&x.0.id, cov);
+            if x.0.val == IDLValue::Null {
+                bump(cov, "cover:kind:variant-null-payload");
+            } else {
+                bump(cov, "cover:kind:variant-with-payload");
+            }
+            scan_value(&x.0.val, depth + 1, cov, maxdepth);
+        }
+        IDLValue::Blob(b) => {
+            bump(
+                cov,
+                if b.is_empty() {
+                    "cover:kind:blob-empty"
+                } else if b.iter().all(|c| (0x20..=0x7e).contains(c)) {
+                    "cover:kind:blob-printable"
+                } else {
+                    "cover:kind:blob-binary"
+                },
+            );
+        }
+        IDLValue::Float64(f) => bump(cov, float_class(*f, "float64")),
+        IDLValue::Float32(f) => bump(cov, float_class(*f as f64, "float32")),
+        IDLValue::Nat(n) => bump(
+            cov,
+            if n.0.bits() > 64 {
+                "cover:kind:nat>64bit"
+            } else {
+                "cover:kind:nat"
+            },
+        ),
+        IDLValue::Int(n) => bump(
+            cov,
+            if n.0.bits() > 64 {
+                "cover:kind:int>64bit"
+            } else {
+                "cover:kind:int"
+            },
+        ),
+        IDLValue::Nat8(_) | IDLValue::Nat16(_) | IDLValue::Nat32(_) | IDLValue::Nat64(_) => {
+            bump(cov, "cover:kind:natN")
+        }
+        IDLValue::Int8(_) | IDLValue::Int16(_) | IDLValue::Int32(_) | IDLValue::Int64(_) => {
+            bump(cov, "cover:kind:intN")
+        }
+        IDLValue::Principal(_) => bump(cov, "cover:kind:principal"),
+        IDLValue::Service(_) => bump(cov, "cover:kind:service"),
+        IDLValue::Reserved => bump(cov, "cover:kind:reserved"),
+        IDLValue::None => bump(cov, "cover:kind:none"),
+        IDLValue::Null => bump(cov, "cover:kind:null"),
+        IDLValue::Bool(_) => bump(cov, "cover:kind:bool"),
+        IDLValue::Number(_) => {}
+    }
+}
+
+fn float_class(f: f64, w: &str) -> &'static str {
+    let s = if f == 0.0 && f.is_sign_negative() {
+        "negative-zero"
+    } else if f == 0.0 {
+        "zero"
+    } else if f.abs() < f64::MIN_POSITIVE || (w == "float32" && f.abs() < f32::MIN_POSITIVE as f64) {
+        "subnormal"
+    } else if f.abs() >= 1e21 {
+        "huge"
+    } else if f.trunc() == f {
+        "integral"
+    } else {
+        "fractional"
+    };
+    match (w, s) {
+        ("float64", "negative-zero") => "cover:kind:float64:negative-zero",
+        ("float64", "zero") => "cover:kind:float64:zero",
+        ("float64", "subnormal") => "cover:kind:float64:subnormal",
+        ("float64", "huge") => "cover:kind:float64:huge",
+        ("float64", "integral") => "cover:kind:float64:integral",
+        ("float64", _) => "cover:kind:float64:fractional",
+        (_, "negative-zero") => "cover:kind:float32:negative-zero",
+        (_, "zero") => "cover:kind:float32:zero",
+        (_, "subnormal") => "cover:kind:float32:subnormal",
+        (_, "huge") => "cover:kind:float32:huge",
+        (_, "integral") => "cover:kind:float32:integral",
+        _ => "cover:kind:float32:fractional",
+    }
+}
+
+struct Case<'a> {
+    env: &'a REnv,
+    names: &'a Names,
+    cenv: &'a TypeEnv,
+}
+
+impl Case<'_> {
+    fn fails(&self, t: &RType, v: &RValue, p: Printer) -> Option<Failure> {
+        let iv = to_idl(self.env, t, v, Some(self.names)).ok()?;
+        let ct = to_candid_type(t, Some(self.names));
+        roundtrip_value(&iv, self.cenv, &ct, p, true).err()
+    }
+    /// Descend into the first failing child until none fails. When a value fails under `Display`
+    /// although each child reads back under `Display`, the printer's abbreviation (more than 10
+    /// elements / deeper than 10) has switched to the `Debug` form: continue with `Debug`.
+    fn minimize(&self, t: &RType, v: &RValue, p: Printer) -> (RType, RValue, Printer) {
+        let mut t = self.env.unfold(t).cloned().unwrap_or(t.clone());
+        let mut v = v.clone();
+        let mut p = p;
+        loop {
+            let mut kids: Vec<(RType, RValue)> = Vec::new();
+            match (&t, &v) {
+                (RType::Opt(it), RValue::Opt(iv)) => kids.push(((**it).clone(), (**iv).clone())),
+                (RType::Vec(it), RValue::Vec(vs)) => {
+                    for x in vs {
+                        kids.push(((**it).clone(), x.clone()));
+                    }
+                }
+                (RType::Record(fs), RValue::Record(vs)) => {
+                    for ((_, ft), (_, fv)) in fs.iter().zip(vs.iter()) {
+                        kids.push((ft.clone(), fv.clone()));
+                    }
+                }
+                (RType::Variant(fs), RValue::Variant(id, pv)) => {
+                    if let Some((_, ft)) = fs.iter().find(|f| f.0 == *id) {
+                        kids.push((ft.clone(), (**pv).clone()));
+                    }
+                }
+                _ => {}
+            }
+            let mut next = None;
+            for (kt, kv) in &kids {
+                if self.fails(kt, kv, p).is_some() {
+                    next = Some((kt.clone(), kv.clone()));
+                    break;
+                }
+            }
+            if next.is_none() && p == Printer::Display {
+                for (kt, kv) in &kids {
+                    if self.fails(kt, kv, Printer::Debug).is_some() {
+                        next = Some((kt.clone(), kv.clone()));
+                        p = Printer::Debug;
+                        break;
+                    }
+                }
+            }
+            match next {
+                Some((kt, kv)) => {
+                    t = self.env.unfold(&kt).cloned().unwrap_or(kt);
+                    v = kv;
+                }
+                None => {
+                    // a vector may fail as a whole: shrink its length as far as it still fails
+                    if let (RType::Vec(it), RValue::Vec(vs)) = (&t, &v) {
+                        if vs.len() > 1 {
+                            let shorter = RValue::Vec(vs[..vs.len() - 1].to_vec());
+                            if self.fails(&RType::Vec(it.clone()), &shorter, p).is_some() {
+                                v = shorter;
+                                continue;
+                            }
+                        }
+                    }
+                    return (t, v, p);
+                }
+            }
+        }
+    }
+}
+
+fn nul_follow(s: &str) -> &'static str {
+    let cs: Vec<char> = s.chars().collect();
+    let mut all_hex = true;
+    for (i, c) in cs.iter().enumerate() {
+        if *c == '\u{0}' && !cs.get(i + 1).map(|x| x.is_ascii_hexdigit()).unwrap_or(false) {
+            all_hex = false;
+        }
+    }
+    if all_hex {
+        "followed-by-hexdigit"
+    } else {
+        "not-followed-by-hexdigit"
+    }
+}
+
+fn needs_quotes(n: &str) -> bool {
+    !is_plain_id(n) || LEXER_KEYWORDS.contains(&n)
+}
+
+/// Cause of a failure of a *minimal* failing value, from the features of that node alone.
+/// `pn` names the printer path: display, debug, or display-abbreviated (Display that fell back to
+/// the Debug form because of the element / depth limit).
+fn classify(iv: &IDLValue, p: Printer, pn: &str, f: &Failure) -> String {
+    let own_labels: Vec<&str> = match iv {
+        IDLValue::Record(fs) => fs
+            .iter()
+            .filter_map(|x| if let Label::Named(n) = &x.id { Some(n.as_str()) } else { None })
+            .collect(),
+        IDLValue::Variant(x) => match &x.0.id {
+            Label::Named(n) => vec![n.as_str()],
+            _ => vec![],
+        },
+        _ => vec![],
+    };
+    match iv {
+        IDLValue::Text(s) if s.contains('\u{0}') => {
+            return format!("roundtrip|{pn}|nul-escape|text|{}", nul_follow(s));
+        }
+        IDLValue::Func(_, m) if m.contains('\u{0}') => {
+            return format!("roundtrip|{pn}|nul-escape|method-name|{}", nul_follow(m));
+        }
+        IDLValue::Func(_, m) if m == "true" || m == "false" => {
+            return format!("roundtrip|{pn}|bare-boolean-keyword|method-name");
+        }
+        _ => {}
+    }
+    if let Some(n) = own_labels.iter().find(|n| n.contains('\u{0}')) {
+        return format!("roundtrip|{pn}|nul-escape|label|{}", nul_follow(n));
+    }
+    if own_labels.iter().any(|n| *n == "true" || *n == "false") {
+        return format!("roundtrip|{pn}|bare-boolean-keyword|label");
+    }
+    if p == Printer::Debug {
+        if let IDLValue::Variant(x) = iv {
+            if x.0.val == IDLValue::Null {
+                if let Label::Named(n) = &x.0.id {
+                    if needs_quotes(n) {
+                        return format!("roundtrip|{pn}|variant-null-payload|label-printed-unquoted");
+                    }
+                }
+            }
+        }
+    }
+    if let IDLValue::Record(fs) = iv {
+        if f.stage == "parse-panic" && f.detail.contains("overflow") && fs.iter().any(|x| x.id.get_id() == u32::MAX) {
+            return format!("roundtrip|{pn}|record-field-id-u32-max|parser-add-overflow");
+        }
+    }
+    let kind = match iv {
+        IDLValue::Text(_) => "text",
+        IDLValue::Func(..) => "func",
+        IDLValue::Record(_) => "record",
+        IDLValue::Variant(_) => "variant",
+        IDLValue::Vec(xs) if xs.len() > 10 => "vec>10",
+        IDLValue::Vec(_) => "vec",
+        IDLValue::Opt(_) => "opt",
+        IDLValue::Blob(_) => "blob",
+        IDLValue::Float32(_) => "float32",
+        IDLValue::Float64(_) => "float64",
+        IDLValue::Nat(_) | IDLValue::Int(_) => "bignum",
+        IDLValue::Principal(_) | IDLValue::Service(_) => "reference",
+        IDLValue::Null | IDLValue::None | IDLValue::Reserved => "null-like",
+        _ => "fixed-width-number",
+    };
+    let detail = if f.stage == "value-mismatch" {
+        diff_class(&f.detail)
+    } else {
+        f.detail.clone()
+    };
+    format!("{}|{pn}|{kind}|{detail}", f.stage)
+}
+
+struct Gen {
+    env: REnv,
+    types: Vec<RType>,
+    values: Vec<RValue>,
+    names: Names,
+}
+
+fn gen_case(rng: &mut Rng, cfg: &TypeCfg, nargs: usize, fuel: i64, max_len: usize) -> Gen {
+    let env0 = gen_env(rng, cfg);
+    let cand0 = gen_types(rng, cfg, &env0, nargs);
+    let mut names = Names::new();
+    let pct = *rng.pick(&[0u64, 30, 60, 100]);
+    let env = REnv(env0.0.iter().map(|t| rename_fields(rng, t, &mut names, pct)).collect());
+    let cand: Vec<RType> = cand0.iter().map(|t| rename_fields(rng, t, &mut names, pct)).collect();
+    // spell pool ids by their pool names too
+    for (k, v) in super::common::gen_names(rng, &env, &cand) {
+        names.entry(k).or_insert(v);
+    }
+    let mut vg = ValGen::new(&env);
+    vg.max_len = max_len;
+    let mut fuel = fuel;
+    let mut types = Vec::new();
+    let mut values = Vec::new();
+    for t in cand {
+        if let Some(v) = vg.gen(rng, &t, &mut fuel) {
+            types.push(t);
+            values.push(v);
+        }
+    }
+    Gen {
+        env,
+        types,
+        values,
+        names,
+    }
+}
+
+fn run_case(ctx: &mut Ctx, rng: &mut Rng, g: Gen, family: &str, cov: &mut Cover) {
+    if !names_consistent(&g.names) {
+        ctx.count("excluded:names-inconsistent");
+        return;
+    }
+    let mut ivs = Vec::new();
+    for (t, v) in g.types.iter().zip(g.values.iter()) {
+        match to_idl(&g.env, t, v, Some(&g.names)) {
+            Ok(x) => ivs.push(x),
+            Err(_) => {
+                ctx.count("excluded:to_idl");
+                return;
+            }
+        }
+    }
+    let args = IDLArgs { args: ivs };
+    let cenv = to_candid_env(&g.env, Some(&g.names));
+    let cts: Vec<Type> = g.types.iter().map(|t| to_candid_type(t, Some(&g.names))).collect();
+    let mut maxdepth = 0;
+    for v in &args.args {
+        scan_value(v, 1, cov, &mut maxdepth);
+    }
+    bump(
+        cov,
+        match maxdepth {
+            0..=5 => "cover:depth:<=5",
+            6..=10 => "cover:depth:6-10",
+            11 => "cover:depth:11",
+            _ => "cover:depth:12+",
+        },
+    );
+    bump(cov, &format!("cover:nargs:{}", args.args.len().min(3)));
+    let case = Case {
+        env: &g.env,
+        names: &g.names,
+        cenv: &cenv,
+    };
+    let names_json = || g.names.iter().map(|(k, v)| format!("{k}={v:?}")).collect::<Vec<_>>();
+    let input = |text: &str| {
+        json!({
+            "family": family,
+            "env": g.env.to_string(),
+            "types": g.types.iter().map(|t| t.to_string()).collect::<Vec<_>>(),
+            "values": g.values.iter().map(|v| v.to_string()).collect::<Vec<_>>(),
+            "names": names_json(),
+            "printed": text,
+        })
+    };
+    // Report the smallest failing sub-value of argument (t, v) under printer p. Returns false when
+    // the argument reads back on its own.
+    let attribute = |ctx: &mut Ctx, cov: &mut Cover, t: &RType, v: &RValue, p: Printer, whole: &str, prefix: &str| -> bool {
+        if case.fails(t, v, p).is_none() {
+            return false;
+        }
+        let (mt, mv, mp) = case.minimize(t, v, p);
+        let (Some(mf), Ok(miv)) = (case.fails(&mt, &mv, mp), to_idl(&g.env, &mt, &mv, Some(&g.names))) else {
+            return false;
+        };
+        let pn = if mp != p { "display-abbreviated" } else { p.name() };
+        let sig = format!("{prefix}{}", classify(&miv, mp, pn, &mf));
+        scan_printed(&mf.text, cov);
+        ctx.violation(
+            &sig,
+            &format!(
+                "{} of the value does not read back ({}: {}). Smallest failing sub-value: type `{}`, value {}, printed{} as {:?}",
+                p.name(),
+                mf.stage,
+                mf.detail,
+                to_candid_type(&mt, Some(&g.names)),
+                mv,
+                if mp != p { " (by the Debug form the Display printer falls back to beyond 10 elements / levels)" } else { "" },
+                mf.text
+            ),
+            json!({
+                "family": family,
+                "env": g.env.to_string(),
+                "type": mt.to_string(),
+                "value": mv.to_string(),
+                "names": names_json(),
+                "printed": mf.text,
+                "whole_printed": whole,
+            }),
+        );
+        true
+    };
+    let mut all_ok = true;
+    for p in [Printer::Display, Printer::Debug] {
+        match roundtrip_args(&args, &cenv, &cts, p) {
+            Ok(text) => {
+                scan_printed(&text, cov);
+                bump(cov, if p == Printer::Display { "agree:display-args" } else { "agree:debug-args" });
+            }
+            Err(f) => {
+                all_ok = false;
+                let mut attributed = false;
+                for (t, v) in g.types.iter().zip(g.values.iter()) {
+                    if attribute(ctx, cov, t, v, p, &f.text, "") {
+                        attributed = true;
+                        break;
+                    }
+                }
+                if !attributed {
+                    // every argument reads back alone: the argument-list printer is at fault
+                    let sig = if args.args.is_empty() {
+                        format!("args-only|{}|empty-argument-list|{}", p.name(), f.stage)
+                    } else {
+                        let detail = if f.stage == "value-mismatch" { diff_class(&f.detail) } else { f.detail.clone() };
+                        format!("args-only|{}|{}|{}", p.name(), f.stage, detail)
+                    };
+                    ctx.violation(
+                        &sig,
+                        &format!(
+                            "{} of the argument list does not read back ({}: {}), printed as {:?}",
+                            p.name(),
+                            f.stage,
+                            f.detail,
+                            f.text
+                        ),
+                        input(&f.text),
+                    );
+                }
+            }
+        }
+    }
+    // the single-value printers and parse_idl_value on one argument
+    if !args.args.is_empty() {
+        let k = rng.usize(args.args.len());
+        for p in [Printer::Display, Printer::Debug] {
+            let annotated = top_level_annotated(&args.args[k]);
+            let mut r = roundtrip_value(&args.args[k], &cenv, &cts[k], p, false);
+            if annotated && matches!(&r, Err(f) if f.stage == "parse-fail") {
+                // `5 : nat8` is not an `Arg`; this grammar limit is not part of the property
+                bump(cov, "observed:parse_idl_value-rejects-top-level-annotation");
+                r = roundtrip_value(&args.args[k], &cenv, &cts[k], p, true);
+            }
+            match r {
+                Ok(_) => bump(cov, if p == Printer::Display { "agree:display-value" } else { "agree:debug-value" }),
+                Err(f) => {
+                    if all_ok && !attribute(ctx, cov, &g.types[k], &g.values[k], p, &f.text, "value-only|") {
+                        let detail = if f.stage == "value-mismatch" { diff_class(&f.detail) } else { f.detail.clone() };
+                        ctx.violation(
+                            &format!("value-only|unwrapped|{}|{}|{}", p.name(), f.stage, detail),
+                            &format!(
+                                "parse_idl_value fails on the printed value although `(text)` reads back ({}: {}), printed {:?}",
+                                f.stage, f.detail, f.text
+                            ),
+                            input(&f.text),
+                        );
+                    }
+                }
+            }
+        }
+    }
+    let shape: Vec<String> = g.types.iter().map(|t| super::common::shape(&g.env, t, 5)).collect();
+    let vshape: Vec<usize> = g.values.iter().map(|v| v.node_count()).collect();
+    ctx.nontrivial(hash_str(&format!("{shape:?}|{vshape:?}|{}", g.names.len())));
+    ctx.sample(|| input(&format!("{args}")));
+}
+
+fn threshold_case(rng: &mut Rng) -> Gen {
+    // vec of exactly 8..12 elements of a random small type
+    let cfg = TypeCfg {
+        max_defs: 0,
+        max_depth: 2,
+        max_fields: 3,
+        refs: true,
+        empty: false,
+        ref_pct: 0,
+    };
+    let env0 = REnv::new();
+    let mut elem;
+    loop {
+        elem = gen_types(rng, &cfg, &env0, 1).pop().unwrap();
+        if ValGen::new(&env0).inhabited(&elem) {
+            break;
+        }
+    }
+    let mut names = Names::new();
+    let elem = rename_fields(rng, &elem, &mut names, 50);
+    let n = *rng.pick(&[8usize, 9, 9, 10, 10, 10, 11, 11, 11, 12, 20]);
+    let vg = ValGen::new(&env0);
+    let mut vs = Vec::new();
+    for _ in 0..n {
+        let mut fuel = 6;
+        if let Some(v) = vg.gen(rng, &elem, &mut fuel) {
+            vs.push(v);
+        }
+    }
+    let mut t = RType::vec(elem);
+    let mut v = RValue::Vec(vs);
+    // sometimes below a few more constructors so the abbreviation happens at depth
+    for _ in 0..rng.usize(3) {
+        match rng.below(3) {
+            0 => {
+                t = RType::opt(t);
+                v = RValue::opt(v);
+            }
+            1 => {
+                t = RType::Record(vec![(7, t)]);
+                v = RValue::Record(vec![(7, v)]);
+            }
+            _ => {
+                t = RType::Variant(vec![(3, t)]);
+                v = RValue::Variant(3, Box::new(v));
+            }
+        }
+    }
+    Gen {
+        env: env0,
+        types: vec![t],
+        values: vec![v],
+        names,
+    }
+}
+
+fn deep_case(rng: &mut Rng) -> Gen {
+    let depth = *rng.pick(&[9usize, 10, 11, 12, 13, 15, 20, 30, 40]);
+    // build type and value together so the nesting is really present in the value
+    let leaf_t = rng
+        .pick(&[RType::Nat, RType::Null, RType::Text, RType::Bool, RType::Reserved, RType::Int8, RType::Float64])
+        .clone();
+    let env = REnv::new();
+    let vg = ValGen::new(&env);
+    let mut fuel = 5;
+    let mut v = vg.gen(rng, &leaf_t, &mut fuel).unwrap_or(RValue::Null);
+    let mut t = leaf_t;
+    let mut names = Names::new();
+    for _ in 0..depth {
+        match rng.below(5) {
+            0 => {
+                t = RType::opt(t);
+                v = RValue::opt(v);
+            }
+            1 => {
+                let n = if rng.chance(1, 4) { 2 } else { 1 };
+                t = RType::vec(t);
+                v = RValue::Vec(vec![v; n]);
+            }
+            2 => {
+                let id = rng.below(3) as u32;
+                t = RType::Record(vec![(id, t)]);
+                v = RValue::Record(vec![(id, v)]);
+            }
+            3 => {
+                let n = gen_label(rng);
+                let id = crate::model::misc::label_hash(&n);
+                if names.get(&id).map(|x| x == &n).unwrap_or(true) {
+                    names.insert(id, n);
+                }
+                t = RType::Record(vec![(id, t)]);
+                v = RValue::Record(vec![(id, v)]);
+            }
+            _ => {
+                let id = rng.below(3) as u32;
+                t = RType::Variant(vec![(id, t)]);
+                v = RValue::Variant(id, Box::new(v));
+            }
+        }
+    }
+    Gen {
+        env,
+        types: vec![t],
+        values: vec![v],
+        names,
+    }
+}
+
+/// One hostile string in every position that carries text: text value, field name, variant label,
+/// method name; with the other parts plain.
+fn string_case(rng: &mut Rng) -> Gen {
+    let s = match rng.below(4) {
+        0 => gen_text(rng),
+        1 => gen_label(rng),
+        2 => {
+            // every scalar class, uniformly over the code space
+            let n = 1 + rng.usize(3);
+            (0..n)
+                .map(|_| loop {
+                    if let Some(c) = char::from_u32(rng.below(0x110000) as u32) {
+                        break c;
+                    }
+                })
+                .collect()
+        }
+        _ => {
+            // a single interesting scalar between plain neighbours
+            let c = gen_char(rng);
+            let pre = *rng.pick(&["", "a", "1", "f", "\\", "\""]);
+            let post = *rng.pick(&["", "a", "1", "f", "g", "0", "}", "\""]);
+            format!("{pre}{c}{post}")
+        }
+    };
+    let id = crate::model::misc::label_hash(&s);
+    let mut names = Names::new();
+    names.insert(id, s.clone());
+    let payload_t = rng.pick(&[RType::Null, RType::Nat, RType::Text, RType::opt(RType::Nat8)]).clone();
+    let payload_v = match &payload_t {
+        RType::Null => RValue::Null,
+        RType::Nat => RValue::nat(rng.below(1000)),
+        RType::Text => RValue::Text(s.clone()),
+        _ => RValue::opt(RValue::Nat8(rng.next() as u8)),
+    };
+    let (t, v) = match rng.below(5) {
+        0 => (RType::Text, RValue::Text(s)),
+        1 => (RType::Record(vec![(id, payload_t)]), RValue::Record(vec![(id, payload_v)])),
+        2 => (RType::Variant(vec![(id, payload_t)]), RValue::Variant(id, Box::new(payload_v))),
+        3 => (
+            RType::func(vec![], vec![], vec![]),
+            RValue::Func(gen_principal(rng), s),
+        ),
+        _ => (
+            RType::vec(RType::Text),
+            RValue::Vec(vec![RValue::Text(s.clone()), RValue::Text(String::new()), RValue::Text(s)]),
+        ),
+    };
+    Gen {
+        env: REnv::new(),
+        types: vec![t],
+        values: vec![v],
+        names,
+    }
+}
+
+fn number_case(rng: &mut Rng) -> Gen {
+    let t = rng
+        .pick(&[
+            RType::Nat,
+            RType::Int,
+            RType::Nat8,
+            RType::Nat16,
+            RType::Nat32,
+            RType::Nat64,
+            RType::Int8,
+            RType::Int16,
+            RType::Int32,
+            RType::Int64,
+            RType::Float32,
+            RType::Float64,
+            RType::Float64,
+            RType::Float32,
+        ])
+        .clone();
+    let env = REnv::new();
+    let vg = ValGen::new(&env);
+    let mut fuel = 10;
+    let v = match &t {
+        RType::Float64 if rng.bool() => {
+            // uniform over finite bit patterns, powers of ten, and neighbours of integers
+            let f = match rng.below(4) {
+                0 => loop {
+                    let f = f64::from_bits(rng.next());
+                    if f.is_finite() {
+                        break f;
+                    }
+                },
+                1 => 10f64.powi(rng.range(0, 616) as i32 - 308),
+                2 => f64::from_bits((rng.below(1 << 54) as f64).to_bits() + rng.below(3)),
+                _ => -f64::from_bits(rng.below(4)),
+            };
+            RValue::Float64(if f.is_finite() { f } else { 0.0 }.to_bits())
+        }
+        RType::Float32 if rng.bool() => {
+            let f = match rng.below(3) {
+                0 => loop {
+                    let f = f32::from_bits(rng.next() as u32);
+                    if f.is_finite() {
+                        break f;
+                    }
+                },
+                1 => 10f32.powi(rng.range(0, 82) as i32 - 44),
+                _ => -f32::from_bits(rng.below(4) as u32),
+            };
+            RValue::Float32(if f.is_finite() { f } else { 0.0 }.to_bits())
+        }
+        _ => vg.gen(rng, &t, &mut fuel).unwrap(),
+    };
+    // plain, under opt, in a record field, or as a vector element
+    let (t, v) = match rng.below(5) {
+        0 => (RType::opt(t), RValue::opt(v)),
+        1 => (RType::Record(vec![(1, t)]), RValue::Record(vec![(1, v)])),
+        2 => (RType::vec(t), RValue::Vec(vec![v.clone(), v])),
+        3 => (RType::Variant(vec![(0, t)]), RValue::Variant(0, Box::new(v))),
+        _ => (t, v),
+    };
+    Gen {
+        env,
+        types: vec![t],
+        values: vec![v],
+        names: Names::new(),
+    }
+}
+
+fn blob_case(rng: &mut Rng) -> Gen {
+    let n = match rng.below(6) {
+        0 => 0,
+        1 => 1,
+        2 => 256,
+        _ => rng.usize(24),
+    };
+    let b: Vec<u8> = match rng.below(5) {
+        0 => (0..n).map(|i| i as u8).collect(),
+        1 => (0..n).map(|_| 0x20 + rng.below(0x5f) as u8).collect(),
+        2 => (0..n)
+            .map(|_| *rng.pick(&[0u8, 9, 10, 13, 0x22, 0x27, 0x5c, 0x60, 0x7f, 0x80, 0xff, b'a', b'0']))
+            .collect(),
+        3 => gen_text(rng).into_bytes(),
+        _ => rng.bytes(n),
+    };
+    let t = RType::vec(RType::Nat8);
+    let v = RValue::blob(&b);
+    let (t, v) = match rng.below(3) {
+        0 => (RType::opt(t), RValue::opt(v)),
+        1 => (RType::Record(vec![(0, t.clone()), (1, t)]), RValue::Record(vec![(0, v.clone()), (1, v)])),
+        _ => (t, v),
+    };
+    Gen {
+        env: REnv::new(),
+        types: vec![t],
+        values: vec![v],
+        names: Names::new(),
+    }
+}
+
+pub fn run(ctx: &mut Ctx) {
+    ctx.max_violations = 80;
+    let mut cov = Cover::new();
+    let cfg = TypeCfg::default();
+    let small = TypeCfg {
+        max_defs: 2,
+        max_depth: 3,
+        max_fields: 3,
+        refs: true,
+        empty: true,
+        ref_pct: 15,
+    };
+    ctx.cases("random-typed-values", 0.3, |ctx, rng| {
+        let nargs = rng.usize(4);
+        let max_len = *rng.pick(&[3usize, 4, 4, 5]);
+        let c = if rng.bool() { &cfg } else { &small };
+        let fuel = if ctx.thorough() { 90 } else { 40 };
+        let g = gen_case(rng, c, nargs, fuel, max_len);
+        run_case(ctx, rng, g, "random-typed-values", &mut cov);
+    });
+    ctx.cases("hostile-strings", 0.3, |ctx, rng| {
+        let g = string_case(rng);
+        run_case(ctx, rng, g, "hostile-strings", &mut cov);
+    });
+    ctx.cases("numbers", 0.12, |ctx, rng| {
+        let g = number_case(rng);
+        run_case(ctx, rng, g, "numbers", &mut cov);
+    });
+    ctx.cases("blobs", 0.08, |ctx, rng| {
+        let g = blob_case(rng);
+        run_case(ctx, rng, g, "blobs", &mut cov);
+    });
+    ctx.cases("vec-threshold", 0.1, |ctx, rng| {
+        let g = threshold_case(rng);
+        run_case(ctx, rng, g, "vec-threshold", &mut cov);
+    });
+    ctx.cases("deep-nesting", 0.1, |ctx, rng| {
+        let g = deep_case(rng);
+        run_case(ctx, rng, g, "deep-nesting", &mut cov);
+    });
+    for (k, v) in cov {
+        ctx.count_n(&k, v);
+    }
+}
